@@ -4,12 +4,16 @@
    callback or returned - the teardown cause is injected after a step or during a slow callback, as C15's quantifier says,
    not in the middle of a call that has not yet published anything - then once every call has returned nothing the
    allocation owned remains (no published permission, no published channel) and every Created callback has had its Deleted.
-   (The same schedules are compared with Model/Teardown.v by C18's check; there is no universal theorem for this
-   predicate: it is evaluated on the real code's schedules only - partial.) *)
+   The schedules are compared with Model/Teardown.v under the step orders extracted from the source (as in C18's check).
+   The part about what remains published (maps_left) is proved to hold on every macro trace of the model
+   (Proofs/TeardownMacro.v, Properties/C15.v); the pairing of Created and Deleted callbacks (pairs_left) is evaluated on
+   the real code's schedules only - partial. *)
 From Turn Require Export Bytes Teardown Common RelayCheck C18Check.
 Open Scope N_scope.
 
-Inductive case := TDO (threads : list thread) (ops : list (mop * obs)).
+(* the step orders the translator extracted from AddPermission / AddChannelBind (as in C18's TD cases), the threads, the
+   forced schedule with what was seen *)
+Inductive case := TDO (ordp ordc : list Teardown.step) (threads : list thread) (ops : list (mop * obs)).
 
 Definition is_closer (t : thread) : bool :=
   match t with TClose0 | TClosePS | TCloseP _ _ | TCloseCS | TCloseC _ _ => true | _ => false end.
@@ -38,21 +42,46 @@ Definition created_keys (l : list ev) : list N :=
 Definition deleted_keys (l : list ev) : list N :=
   flat_map (fun e => match e with EvPermDeleted _ | EvChanDeleted _ => [ev_key e - 1] | _ => [] end) l.
 
-Definition nothing_left (ops : list (mop * obs)) : bool :=
+Definition all_done (st : list status) : bool := forallb (fun s => match s with SDone => true | _ => false end) st.
+
+(* once every call has returned and the allocation is closed: no published permission, no published channel ... *)
+Definition maps_left (ops : list (mop * obs)) : bool :=
   match rev ops with
   | [] => true
   | (_, ob) :: _ =>
-      if forallb (fun s => match s with SDone => true | _ => false end) (o_status ob) && o_closed ob then
-        match o_perms ob with [] => true | _ => false end &&
-        match o_chans ob with Some [] => true | _ => false end &&
-        let evs := flat_map (fun p => o_events (snd p)) ops in
-        mset_eqb N.eqb (created_keys evs) (deleted_keys evs)
+      if all_done (o_status ob) && o_closed ob then
+        match o_perms ob with [] => true | _ => false end && match o_chans ob with Some [] => true | _ => false end
       else true
   end.
+(* ... and every Created callback has had its Deleted *)
+Definition pairs_left (ops : list (mop * obs)) : bool :=
+  match rev ops with
+  | [] => true
+  | (_, ob) :: _ =>
+      if all_done (o_status ob) && o_closed ob then
+        let evs := flat_map (fun p => o_events (snd p)) ops in mset_eqb N.eqb (created_keys evs) (deleted_keys evs)
+      else true
+  end.
+Definition nothing_left (ops : list (mop * obs)) : bool := maps_left ops && pairs_left ops.
 
+Definition maps_holds (threads : list thread) (ops : list (mop * obs)) : bool :=
+  if premise threads ops then maps_left ops else true.
 Definition holds (c : case) : bool :=
-  match c with TDO threads ops => if premise threads ops then nothing_left ops else true end.
+  match c with TDO _ _ threads ops => if premise threads ops then nothing_left ops else true end.
 
-Definition run (c : case) : verdict := (true, holds c).
+(* correspondence: the schedule is one the model reproduces observation for observation under the extracted step orders
+   (as for C18), and those orders satisfy the two conditions of the theorems (no crash: orders_ok; nothing left to publish
+   once inside a callback: callbacks_last) *)
+Definition run (c : case) : verdict :=
+  (match c with
+   | TDO ordp ordc threads ops =>
+       forallb initial threads && orders_ok ordp ordc && callbacks_last ordp ordc &&
+       agree_from ordp ordc ((Teardown.init, threads), map (fun _ => SNew) threads) ops
+   end, holds c).
 Definition bad_cases (base : N) (cs : list case) := bad_from run base cs.
-Definition diagnose (c : case) := match c with TDO threads ops => (premise threads ops, nothing_left ops) end.
+Definition diagnose (c : case) :=
+  match c with
+  | TDO ordp ordc threads ops =>
+      (orders_ok ordp ordc, callbacks_last ordp ordc, premise threads ops, maps_left ops, pairs_left ops,
+       diag_from ordp ordc ((Teardown.init, threads), map (fun _ => SNew) threads) ops 0)
+  end.
